@@ -922,8 +922,12 @@ class Interp:
             if k == 'Let':
                 if st['init'] is None:
                     continue
-                v = self.expr(st['init'], env, let_name=st['pat'].get('name') if st['pat']['k'] == 'PIdent' else None,
-                              let_mut=st['pat'].get('mut', False))
+                self.frame['let_ty'] = (st.get('ty') or '').replace(' ', '')
+                try:
+                    v = self.expr(st['init'], env, let_name=st['pat'].get('name') if st['pat']['k'] == 'PIdent' else None,
+                                  let_mut=st['pat'].get('mut', False))
+                finally:
+                    self.frame['let_ty'] = ''
                 c = self.bind(st['pat'], v, env)
                 if st.get('else') is not None and c != TRUE:
                     # let-else: diverging branch, then the rest of the block runs under the pattern's condition
@@ -1609,6 +1613,12 @@ class Interp:
             if e['recv']['k'] == 'Path' and len(e['recv']['path']['segs']) == 1:
                 env.assign(e['recv']['path']['segs'][0], new)
             return ('tuple', [])
+        if m == 'collect' and not e['args']:
+            # collecting into a set / map is not the identity on the sequence (order, duplicates): keep it visible to the rules
+            target = (e.get('turbofish') or '').replace(' ', '') or (self.frame.get('let_ty', '') if let_name is not None else '')
+            for kind in ('HashSet', 'BTreeSet', 'HashMap', 'BTreeMap', 'IndexSet', 'IndexMap'):
+                if kind in target:
+                    return ('mcall', recv, 'collect_into_' + kind, [])
         if m in self.IDENTITY and not e['args']:
             return recv
         if m in ('unwrap', 'expect'):
